@@ -60,6 +60,30 @@ def _all_paths_return(stmts):
     return False
 
 
+def _ends_with_exit(stmts):
+    return bool(stmts) and isinstance(stmts[-1], (ast.Return, ast.Raise))
+
+
+def nest_guards(stmts):
+    """`if c: A; return x` followed by REST  ==  `if c: A; return x  else: REST` -- makes guard-clause returns tail-position returns."""
+    out = []
+    for i, s in enumerate(stmts):
+        if isinstance(s, ast.If) and stmts[i + 1:] and (_ends_with_exit(s.body) and not s.orelse):
+            s2 = clone(s)
+            s2.body = nest_guards(s2.body)
+            s2.orelse = nest_guards([clone(x) for x in stmts[i + 1:]])
+            out.append(s2)
+            return out
+        if isinstance(s, ast.If):
+            s2 = clone(s)
+            s2.body = nest_guards(s2.body)
+            s2.orelse = nest_guards(s2.orelse)
+            out.append(s2)
+        else:
+            out.append(s)
+    return out
+
+
 def inlinable(fn):
     if not _is_private(fn.name) or fn.name in ANCHORS:
         return False
@@ -75,9 +99,10 @@ def inlinable(fn):
             return False
     if _count_stmts(fn) > MAX_STMTS:
         return False
-    if not _tail_ok(fn.body):
+    body = nest_guards(fn.body)
+    if not _tail_ok(body):
         return False
-    if _has_value_return(fn) and not _all_paths_return(fn.body):
+    if _has_value_return(fn) and not _all_paths_return(body):
         return False
     return True
 
@@ -127,7 +152,7 @@ class Inliner:
             r = self.repo.resolve_name(mod, f.id)
             if isinstance(r, ast.FunctionDef) and getattr(r, "_cls", None) is None:
                 target = r
-        if target is None or target is caller or not inlinable(target):
+        if target is None or target is caller or not inlinable(target) or target.name in getattr(self, "blocked", ()):
             return None, None
         if any(isinstance(a, ast.Starred) for a in call.args) or any(k.arg is None for k in call.keywords):
             return None, None
@@ -177,14 +202,16 @@ class Inliner:
             if p in assigned:
                 renames[p] = p + tag
                 mapping.pop(p, None)
-        body = [clone(s) for s in helper.body]
+        body = nest_guards([clone(s) for s in helper.body])
         body = [_Subst(mapping, renames).visit(s) for s in body]
+
+        had_value_flag = [False]
 
         def replace_returns(stmts):
             out = []
             for s in stmts:
                 if isinstance(s, ast.Return):
-                    out.extend(cont(s.value))
+                    out.extend(cont(s.value) if (s.value is not None or not had_value_flag[0]) and s.value is not None else ([] if not had_value_flag[0] else cont(None)))
                 elif isinstance(s, ast.If):
                     s.body = replace_returns(s.body) or [ast.Pass()]
                     s.orelse = replace_returns(s.orelse)
@@ -194,6 +221,7 @@ class Inliner:
             return out
 
         had_value = _has_value_return(helper)
+        had_value_flag[0] = had_value
         body = replace_returns(body)
         if not had_value:
             body = body + cont(None)
@@ -288,8 +316,31 @@ class Inliner:
         return out, changed
 
 
+def _inlinable_position(call):
+    """The call is the whole value of a simple statement, or a direct positional argument of a statement-level call."""
+    par = getattr(call, "_parent", None)
+    if isinstance(par, ast.Expr):
+        return True
+    if isinstance(par, (ast.Assign, ast.AugAssign, ast.Return)) and par.value is call:
+        return True
+    if isinstance(par, ast.Call) and any(a is call for a in par.args) and isinstance(getattr(par, "_parent", None), ast.Expr):
+        return True
+    return False
+
+
 def inline_private_helpers(repo, passes=3):
     inl = Inliner(repo)
+    # all-or-nothing: a helper with a call site that cannot be inlined (e.g. inside a comparison or a comprehension) stays a unit of its own
+    blocked = set()
+    for fn in repo.all_functions():
+        if getattr(fn, "_module", None) is None:
+            continue
+        for n in ast.walk(fn):
+            if isinstance(n, ast.Call):
+                nm = n.func.attr if isinstance(n.func, ast.Attribute) else (n.func.id if isinstance(n.func, ast.Name) else None)
+                if nm and _is_private(nm) and not _inlinable_position(n):
+                    blocked.add(nm)
+    inl.blocked = blocked
     for _ in range(passes):
         any_change = False
         for fn in list(repo.all_functions()):
